@@ -391,6 +391,56 @@ def check_partial_total(s, keep, kw, res):
         res.nontriv((s, keep, repr(kw)))
 
 
+WS_KEEPS = [' ', '\n', ' \n', '\t\r', ' \n\t', '\\ ', '#^_ ', '\\${}^_ \n']
+WS_ALPHA = ['a', 'b', '1', '.', ',', ' ', ' ', '\n', '\t', '\u00e9', '\u221e', '  ']
+
+
+def ws_keep_model(s, keep, table):
+    """keep_latex_chars holding blanks, input without LaTeX-active characters: at a kept blank the
+    token that is copied through is the run of blanks plus the ordinary character after it; any
+    other character follows the default rules.  None = not modelled (run with a paragraph break
+    before a non-ASCII character)"""
+    out, pos = [], 0
+    while pos < len(s):
+        ch = s[pos]
+        if ch in keep:
+            j = pos
+            while j < len(s) and s[j] in ' \n\t\r':
+                j += 1
+            if j < len(s) and s[pos:j].count('\n') >= 2 and ord(s[j]) > 127:
+                return None
+            out.append(s[pos:j + 1])
+            pos = j + 1
+            continue
+        o = ord(ch)
+        out.append(M.protect(table[o], 'braces') if o in table else ch)
+        pos += 1
+    return ''.join(out)
+
+
+def check_partial_ws(s, keep, res):
+    from pylatexenc.latexencode import PartialLatexToLatexEncoder
+    res.case()
+    case = {'kind': 'partial-ws', 's': s, 'keep': keep}
+    s = unicodedata.normalize('NFC', s)
+    try:
+        got = PartialLatexToLatexEncoder(keep_latex_chars=keep,
+                                         unknown_char_warning=False).unicode_to_latex(s)
+    except Exception as e:
+        res.fail(exc_key(e), exc_detail(e) + ' on %r keep %r' % (s, keep), case)
+        return
+    want = ws_keep_model(s, keep, builtin_tables()['defaults'])
+    if want is None:
+        return
+    res.label('partial:blank-keep-modelled')
+    if any(c in keep for c in s[:-1]):
+        res.nontriv((s, keep))
+    if got != want:
+        res.fail('c04:partial-blank-keep-differs', 'input %r keep_latex_chars=%r: partial encoder '
+                 '%r, expected %r (kept blanks and the token after them copied through)'
+                 % (s, keep, got, want), case)
+
+
 def check_partial(s, res):
     from pylatexenc.latexencode import PartialLatexToLatexEncoder
     res.case()
@@ -485,7 +535,7 @@ def plan(tier, seed):
                                          'histories': nhist, 'max_string': 30},
             'required_classes': ['rule:dict', 'rule:regex', 'rule:call', 'rule:builtin',
                                  'policy:fail', 'policy:unihex', 'outcome:fail-raised',
-                                 'non-trivial', 'concat-law', 'partial:modelled',
+                                 'non-trivial', 'concat-law', 'partial:modelled', 'partial:blank-keep-modelled',
                                  'partial:malformed-token-totality-only', 'history-call',
                                  'builtin-single', 'rules-aliasing:insert-own-rule']}
 
@@ -530,6 +580,9 @@ def run_shard(shard, res):
                         max_size=8).map(''.join)
         hyp_run(st.tuples(wide, st.sampled_from(KEEPS + [KEEP_DEFAULT]), st.sampled_from(PARTIAL_KW)),
                 lambda t: check_partial_total(t[0], t[1], t[2], res), n // 2, seed + 7)
+        ws = st.lists(st.sampled_from(WS_ALPHA), max_size=8).map(''.join)
+        hyp_run(st.tuples(ws, st.sampled_from(WS_KEEPS)),
+                lambda t: check_partial_ws(t[0], t[1], res), n // 2, seed + 11)
     elif kind == 'history':
         _, n, seed = shard
         call = st.tuples(st.lists(st.sampled_from(ALPHA[:-1] + extra[:40]), max_size=6).map(''.join),
@@ -564,6 +617,8 @@ def check_case(case, res):
         check_concat(case['a'], case['b'], case['opts'], res)
     elif k == 'partial':
         check_partial(case['s'], res)
+    elif k == 'partial-ws':
+        check_partial_ws(case['s'], case['keep'], res)
     elif k == 'partial-total':
         check_partial_total(case['s'], case['keep'], case['kw'], res)
     else:
